@@ -16,14 +16,14 @@ macro_rules! universe {
              quantities::power::Power, quantities::frequency::Frequency, quantities::datavolume::DataVolume,
              quantities::datathroughput::DataThroughput, quantities::temperature::Temperature,
              qexec::synth::SynA, qexec::synth::SynK, qexec::synth::SynP, qexec::synth::SynS, qexec::synth::SynQ,
-             qexec::synth::SynI, qexec::synth::SynTwo, qexec::synth::SynFive, qexec::synth::SynOne];
+             qexec::synth::SynI, qexec::synth::SynT, qexec::synth::SynTwo, qexec::synth::SynFive, qexec::synth::SynOne];
             [quantities::AmountT, quantities::mass::Mass, quantities::length::Length, quantities::duration::Duration,
              quantities::area::Area, quantities::volume::Volume, quantities::speed::Speed,
              quantities::acceleration::Acceleration, quantities::force::Force, quantities::energy::Energy,
              quantities::power::Power, quantities::frequency::Frequency, quantities::datavolume::DataVolume,
              quantities::datathroughput::DataThroughput, quantities::temperature::Temperature,
              qexec::synth::SynA, qexec::synth::SynK, qexec::synth::SynP, qexec::synth::SynS, qexec::synth::SynQ,
-             qexec::synth::SynI, qexec::synth::SynTwo, qexec::synth::SynFive, qexec::synth::SynOne]);
+             qexec::synth::SynI, qexec::synth::SynT, qexec::synth::SynTwo, qexec::synth::SynFive, qexec::synth::SynOne]);
     };
 }
 
